@@ -53,7 +53,7 @@ def opSem : BinOp → Int → Int → PyRes Int
   | .mul, a, b => .ok (a * b)
   | .div, a, b => if b = 0 then .error .other else .ok (Int.fdiv a b)
   | .mod, a, b => if b = 0 then .error .other else .ok (Int.fmod a b)
-  | .shl, a, b => if b < 0 then .error .other else .ok (a * 2 ^ b.toNat)
+  | .shl, a, b => if b < 0 then .error .other else if b > maxShift then .error .other else .ok (a * 2 ^ b.toNat)
   | .shr, a, b => if b < 0 then .error .other else .ok (Int.fdiv a (2 ^ b.toNat))
   | .band, a, b => .ok (intAnd a b)
   | .bor, a, b => .ok (intOr a b)
@@ -81,9 +81,12 @@ def posSem (a : Int) : PyRes Int := .ok a
 def lnotSem (a : Int) : PyRes Int := .ok (ofBool (!truth a))
 def definedSem (names : List String) (x : String) : Bool := decide (x ∈ names)
 
-/-- a constant denotes its (first) definition; an undefined identifier denotes no integer -/
+/-- A constant denotes its definition; an undefined identifier denotes no integer.  Which of SEVERAL definitions of one
+    name counts is not said by any document: the Spec takes the implementation's choice (first or last, read from the source
+    as `Generated.BdGrammar.lookupFirstWins`), so that only programs with duplicate definitions depend on it. -/
 def lookup (vars : Vars) (x : String) : Val :=
-  match vars.find? (fun p => p.1 == x) with
+  let vs := if SpsdkVerif.Generated.BdGrammar.lookupFirstWins then vars else vars.reverse
+  match vs.find? (fun p => p.1 == x) with
   | some p => p.2
   | none => .sym x
 
